@@ -6,7 +6,8 @@
 (*   reset{q,l}   Call{c}   Dial{k}   DialRet{k,ok}   ConnWrite{c,k}       *)
 (*   Deliver{c}   ExchangeEnd{c,r,e}  (r = reply | err; e = refused | dial *)
 (*   | other)                                                              *)
-(* Silent: Attach*, EarlyAdmit, EarlyRefuse, EarlyFail, Finish, Release.   *)
+(* Silent: Attach*, DialPublish, EarlyAdmit, EarlyRefuse, EarlyFail,       *)
+(* Finish, Release.                                                        *)
 (***************************************************************************)
 EXTENDS LazyPipe, IOUtils, Json
 
@@ -44,6 +45,7 @@ Silent ==
     /\ l <= Len(Trace) /\ UNCHANGED l
     /\ \/ \E c \in Callers : EarlyAdmit(c) \/ EarlyRefuse(c) \/ EarlyFail(c) \/ Finish(c) \/ Release(c)
        \/ \E c \in Callers, s \in Slots : AttachEarly(c, s) \/ AttachReady(c, s) \/ AttachNew(c, s)
+       \/ \E s \in Slots : DialPublish(s)
 
 TraceNext == (Reset \/ Logged \/ Silent) /\ LazyInv'
 TraceSpec == TraceInit /\ [][TraceNext]_tvars
